@@ -4,6 +4,9 @@ manifest stays valid while checks are added)."""
 import json, os
 ROOT = os.path.dirname(os.path.abspath(__file__))
 CHECKS = {
+ "C05": dict(level="exploration", technique="filesystem snapshot oracle (jail with canaries at every level, prefix-sibling, root litter scan) + strace syscall-trace oracle over a complete location grammar and random strings, three session endings",
+     text="Every Content-Location of the grammar prefix{9} x up to d segments{10} (d=3 quick, 4 thorough; complete enumeration) and thousands of random strings is announced by a hand-built FDT and delivered through a real session to ObjectWriterFS with complete / MD5-error / interrupted endings; nothing outside the destination may be created, modified or deleted (snapshot of a jail three levels up + filesystem root scan), and in a strace-traced sample every mutating file syscall must target a path under the destination, successful or not. Held on the locations run.",
+     note="trusted: snapshot code, strace; no symlinks planted; runs as root (absolute escapes are real, names are unique and removed)", ref="DESIGN.md §5 C05"),
  "C09": dict(level="exploration", technique="typestate trace automaton per writer instance (online in the monitoring writer + offline over its log) over every drop point x scripted writer failures x orders, hand-written FDTs, malformed histories",
      text="Every writer the builder hands out is an automaton New->Opened->(write)*->terminal; illegal edges are recorded at the call that makes them. Workloads: each small session x 9 writer scripts x 4 orders x EVERY drop point, hand-written FDTs without FEC-OTI (writer created inside push) with empty/non-empty objects and lying Content-Length, and 60k (quick) malformed histories with failing writers. Offline checks add prefix-of-content, complete-implies-content/length/MD5 and terminated-at-drop. Held on the histories run.",
      note="trusted: monitoring writer; per-instance automaton (several writers per TOI are legal)", ref="DESIGN.md §5 C09"),
